@@ -209,8 +209,8 @@ Qed.
    n = 2 > len(l) = 1 and two entries in a map configured for one;
    afterwards, sequentially: the next miss moves h to 1 = len(l); every later miss panics, for ever *)
 Lemma globcache_race_refuted_w :
-  exists sched, let '(s, ts) := run g_step sched (gc_new 1) [g_init (bs "a*") true; g_init (bs "b*") true] in
-    g_results ts = [Some (Ok (bs "a*")); Some (Ok (bs "b*"))]
+  exists sched, let '(s, ts) := run g_step_unrepaired sched (gc_new 1) [g_init_unrepaired (bs "a*") true; g_init_unrepaired (bs "b*") true] in
+    g_results_unrepaired ts = [Some (Ok (bs "a*")); Some (Ok (bs "b*"))]
     /\ c_n s = 2 /\ length (c_l s) = 1 /\ length (m_keys (c_m s)) = 2
     /\ let '(s1, o1) := gc_get s (bs "c*") true in o1 = Some (Ok (bs "c*")) /\ c_h s1 = 1
     /\ let '(s2, o2) := gc_get s1 (bs "d*") true in o2 = Some Panic /\ s2 = s1
@@ -225,8 +225,8 @@ Qed.
 
 (* the immediate crash: B passed the check, A appended (n = len(l)), B indexes l[n] *)
 Lemma globcache_race_panic_w :
-  exists sched, let '(s, ts) := run g_step sched (gc_new 1) [g_init (bs "a*") true; g_init (bs "b*") true] in
-    g_results ts = [Some (Ok (bs "a*")); Some Panic].
+  exists sched, let '(s, ts) := run g_step_unrepaired sched (gc_new 1) [g_init_unrepaired (bs "a*") true; g_init_unrepaired (bs "b*") true] in
+    g_results_unrepaired ts = [Some (Ok (bs "a*")); Some Panic].
 Proof. exists [1; 1; 0; 0; 0; 0; 0; 0; 0; 1; 1; 1]. vm_compute. reflexivity. Qed.
 
 (* ---- every interleaving: a Get that returns returns the requested compiled pattern ---- *)
@@ -252,9 +252,9 @@ Lemma m_delete_wf : forall m k, m_wf m -> m_wf (m_delete m k).
 Proof. intros m k H a b I. apply m_delete_in in I. now apply H. Qed.
 
 Lemma g_step_sound : forall s l, m_wf (c_m s) -> g_thread_ok l ->
-  m_wf (c_m (fst (g_step s l))) /\ g_thread_ok (snd (g_step s l)).
+  m_wf (c_m (fst (g_step_unrepaired s l))) /\ g_thread_ok (snd (g_step_unrepaired s l)).
 Proof.
-  intros s l Hm Hl. unfold g_step.
+  intros s l Hm Hl. unfold g_step_unrepaired.
   destruct (g_at l) eqn:E; cbn [fst snd]; try (split; assumption);
     try (split; [assumption | unfold g_thread_ok in *; cbn; assumption]).
   - destruct (m_load (c_m s) (g_pat l)) as [v|] eqn:EL; cbn [fst snd].
@@ -278,14 +278,77 @@ Proof.
 Qed.
 
 Theorem globcache_any_schedule_result_l : forall sched s ts, m_wf (c_m s) -> Forall g_thread_ok ts ->
-  m_wf (c_m (fst (run g_step sched s ts))) /\ Forall g_thread_ok (snd (run g_step sched s ts)).
+  m_wf (c_m (fst (run g_step_unrepaired sched s ts))) /\ Forall g_thread_ok (snd (run g_step_unrepaired sched s ts)).
 Proof.
   induction sched as [|i sched IH]; intros s ts Hm Ht; cbn [run].
   - split; assumption.
   - unfold step1. destruct (nth_error ts i) as [l|] eqn:E.
     + assert (Hl : g_thread_ok l).
       { eapply Forall_forall; [exact Ht|]. eapply nth_error_In; eassumption. }
-      pose proof (g_step_sound s l Hm Hl) as [S1 S2]. destruct (g_step s l) as [s' l']. cbn [fst snd] in *.
+      pose proof (g_step_sound s l Hm Hl) as [S1 S2]. destruct (g_step_unrepaired s l) as [s' l']. cbn [fst snd] in *.
       apply IH; [assumption | now apply Forall_upd].
     + apply IH; assumption.
 Qed.
+
+(* ------------------------------------------------------------------ the code as it is (fix d9b7eff):
+   lock-free fast path, then one critical section.  EVERY schedule, any number of goroutines. *)
+Definition q_thread_ok (l : qlocal) : Prop :=
+  (q_at l = QCrit -> q_ok l = true) /\
+  match q_res l with
+  | None => q_at l <> QDone                 (* a finished Get has a result ... *)
+  | Some (Ok v) => v = q_pat l              (* ... the glob compiled from ITS pattern, *)
+  | Some (Err _) => q_ok l = false          (* an error only if the pattern does not compile, *)
+  | Some Panic => False                     (* never a panic *)
+  end.
+
+Lemma g_init_ok : forall pat ok, q_thread_ok (g_init pat ok).
+Proof. intros. unfold q_thread_ok, g_init. cbn. split; discriminate. Qed.
+
+Lemma g_step_inv : forall size s l, gc_inv size s -> q_thread_ok l ->
+  gc_inv size (fst (g_step s l)) /\ q_thread_ok (snd (g_step s l)).
+Proof.
+  intros size s l Hs [Hc Hr]. unfold g_step. destruct (q_at l) eqn:E.
+  - destruct (m_load (c_m s) (q_pat l)) as [v|] eqn:EL; cbn [fst snd].
+    + split; [assumption|]. unfold q_thread_ok, q_ret. cbn. split; [discriminate|].
+      apply m_load_some in EL. destruct Hs as (_ & _ & _ & _ & _ & HV). now apply HV.
+    + destruct (q_ok l) eqn:EO; cbn [fst snd]; (split; [assumption|]); unfold q_thread_ok, q_ret; cbn.
+      * split; [intros _; assumption || reflexivity | discriminate].
+      * split; [discriminate | assumption || reflexivity].
+  - pose proof (gc_get_inv size s (q_pat l) true Hs) as G. destruct (gc_get s (q_pat l) true) as [s' o].
+    destruct G as [G1 G2]. cbv beta iota. cbn [fst snd]. split; [exact G1|]. subst o. unfold q_thread_ok, q_ret. cbn.
+    split; [discriminate | reflexivity].
+  - cbn [fst snd]. split; [assumption|]. unfold q_thread_ok. rewrite E. split; assumption.
+Qed.
+
+Theorem globcache_every_schedule_l : forall size sched s ts, gc_inv size s -> Forall q_thread_ok ts ->
+  gc_inv size (fst (run g_step sched s ts)) /\ Forall q_thread_ok (snd (run g_step sched s ts)).
+Proof.
+  intros size sched. induction sched as [|i sched IH]; intros s ts Hs Ht; cbn [run].
+  - split; assumption.
+  - unfold step1. destruct (nth_error ts i) as [l|] eqn:E; [|apply IH; assumption].
+    assert (Hl : q_thread_ok l) by (eapply Forall_forall; [exact Ht | eapply nth_error_In; eassumption]).
+    pose proof (g_step_inv size s l Hs Hl) as [S1 S2]. destruct (g_step s l) as [s' l']. cbn [fst snd] in *.
+    apply IH; [assumption | now apply Forall_upd].
+Qed.
+
+(* the statement of the property: a fresh cache of any size > 0, any number of goroutines each calling
+   Get with any pattern, ANY schedule (so: every reachable state): n <= size, at most size map entries,
+   all of them in l, and no Get has panicked or returned anything but the glob of its own pattern *)
+Theorem globcache_conc_inv_l : forall size calls sched, 0 < size ->
+  let r := run g_step sched (gc_new size) (map (fun c => g_init (fst c) (snd c)) calls) in
+  c_n (fst r) <= size /\ length (m_keys (c_m (fst r))) <= size /\ incl (m_keys (c_m (fst r))) (c_l (fst r))
+  /\ length (c_l (fst r)) = size /\ Forall q_thread_ok (snd r).
+Proof.
+  intros size calls sched H. cbv zeta.
+  assert (Ht : Forall q_thread_ok (map (fun c => g_init (fst c) (snd c)) calls)).
+  { apply Forall_forall. intros x Hx. apply in_map_iff in Hx. destruct Hx as [c [<- _]]. apply g_init_ok. }
+  destruct (globcache_every_schedule_l size sched _ _ (gc_new_inv size H) Ht) as [G1 G2].
+  destruct (gc_inv_bounds size _ G1) as (A & B & C & D). repeat split; assumption.
+Qed.
+
+Example globcache_conc_nonvacuous :
+  let r := run g_step [0; 1; 2; 1; 0; 2; 3; 3] (gc_new 1)
+               [g_init (bs "a*") true; g_init (bs "b*") true; g_init (bs "a*") true; g_init (bs "[") false] in
+  g_results (snd r) = [Some (Ok (bs "a*")); Some (Ok (bs "b*")); Some (Ok (bs "a*")); Some (Err 1%N)]
+  /\ c_n (fst r) = 1 /\ m_keys (c_m (fst r)) = [bs "a*"].
+Proof. vm_compute. repeat split. Qed.
